@@ -49,6 +49,21 @@ Check(c, o) ==
        \o (IF MustStart(c.cfg) /\ o.load = "ok" /\ o.start # "ok" THEN <<"AcceptedDoesNotStart">> ELSE <<>>)
        \o (IF a /\ ~MustStart(c.cfg) /\ o.load = "ok" /\ o.start = "ok" THEN <<"StartsHalfConfigured">> ELSE <<>>)
 
+\* ---- process level: the real cmd/helios binary is started with the rendered file (its listeners, the metrics and
+\* admin servers included).  Variants named "n_..." are ones the documentation says nothing about: the validator may
+\* take or refuse them, but whatever it takes must run or end with an error -- "never panics".
+ProcOverrides == {[metrics |-> "on"], [metrics |-> "n_health_path"], [metrics |-> "n_brace_path"], [metrics |-> "n_noslash_path"],
+                  [admin |-> "on"], [admin |-> "on_lists"], [metrics |-> "on", admin |-> "on"], [plugins |-> "sample_chain"],
+                  [wspool |-> "on"], [active |-> "on"], [breaker |-> "on"], [ratelimit |-> "on"]}
+ProcCfg(ov) == [s \in Sections |-> IF s \in DOMAIN ov THEN ov[s] ELSE Default[s]]
+ProcCases == {ProcCfg(ov) : ov \in ProcOverrides}
+Neutral(cfg) == \E s \in Sections : cfg[s] \in {"n_health_path", "n_brace_path", "n_noslash_path"}
+\* o = [load, proc: "running" | "exit_err" | "panic" | "skipped"]
+CheckProc(c, o) ==
+  (IF o.load = "panic" \/ o.proc = "panic" THEN <<"Panic_process">> ELSE <<>>)
+  \o (IF ~Neutral(c.cfg) /\ MustStart(c.cfg) /\ o.load # "ok" THEN <<"ValidRejected">> ELSE <<>>)
+  \o (IF ~Neutral(c.cfg) /\ MustStart(c.cfg) /\ o.load = "ok" /\ o.proc # "running" THEN <<"AcceptedDoesNotStart_process">> ELSE <<>>)
+
 \* ---- case spaces
 \* all variants of one or two sections, everything else at its default
 PairCases == UNION {{[s \in Sections |-> IF s = a THEN va ELSE IF s = b THEN vb ELSE Default[s]] :
